@@ -308,7 +308,9 @@ func cmdCheck(args []string) int {
 			if kf, ok := known[o.Name]; ok {
 				nObl-- // not counted as a claimed obligation
 				knownHit = append(knownHit, o.Name)
-				lines = append(lines, fmt.Sprintf("KNOWN-FINDING: property=%s %s", *prop, strings.TrimSpace(strings.TrimPrefix(kf.Text, "finding:"))))
+				txt := strings.TrimSpace(strings.TrimPrefix(kf.Text, "finding:"))
+				txt = strings.TrimSpace(strings.TrimPrefix(txt, "property="+*prop))
+				lines = append(lines, fmt.Sprintf("KNOWN-FINDING: property=%s %s", *prop, txt))
 				continue
 			}
 			body := map[string]interface{}{"obligation": o.Name, "property": *prop, "kind": o.Kind, "clause": o.Src, "at": o.Pos, "status": o.Status}
